@@ -229,7 +229,10 @@ def contigs_strategy():
         b = draw(st.integers(1, 30))
         F = draw(st.sampled_from([None, 0, 1, 3, 10, 40]))
         wl = draw(st.one_of(st.none(), st.lists(st.sampled_from([nm(i) for i in range(nc)]), unique=True, min_size=1)))
-        return {'contigs': contigs, 'bed': bl, 'bin': b, 'frag': F, 'whitelist': wl, 'gz': draw(st.booleans())}
+        # the contig lengths are given as a list, or taken from the header of a BAM file named by its path (the same path for
+        # every case of a process, rewritten each time)
+        return {'contigs': contigs, 'bed': bl, 'bin': b, 'frag': F, 'whitelist': wl, 'gz': draw(st.booleans()),
+                'resource': draw(st.sampled_from(['list', 'list', 'bam_path']))}
     return case()
 
 
@@ -248,8 +251,15 @@ def eval_contigs(case):
             with open(path, 'w') as f:
                 f.write(txt)
     contigs = [tuple(c) for c in case['contigs']]
+    resource = contigs
+    if case.get('resource') == 'bam_path':
+        import pysam
+        resource = os.path.join(scratch_dir(), 'c17_%d.bam' % os.getpid())
+        hdr = pysam.AlignmentHeader.from_dict({'HD': {'VN': '1.6', 'SO': 'coordinate'}, 'SQ': [{'SN': n, 'LN': int(l)} for n, l in contigs]})
+        with pysam.AlignmentFile(resource, 'wb', header=hdr):
+            pass
     try:
-        res = list(blacklisted_binning_contigs(contigs, case['bin'], case['frag'], blacklist_path=path,
+        res = list(blacklisted_binning_contigs(resource, case['bin'], case['frag'], blacklist_path=path,
                                                contig_whitelist=case['whitelist']))
     except Exception as e:
         out.bad('contigs:exception:%s' % type(e).__name__, 'blacklisted_binning_contigs raised %r on %r' % (e, case))
